@@ -325,6 +325,24 @@ def handle (j : Json) : P Json := do
     let out := Efp.JsonModel.decode objs
     pure (Json.mkObj [("objs", Json.arr (out.map (fun o =>
       Json.mkObj [("cls", o.cls), ("id", o.id), ("attrs", Json.arr (o.attrs.map (fun p => Json.arr #[Json.str p.1, mvalJson p.2])).toArray)])).toArray)])
+  | "toggle" =>
+    let content ← (← fl j "content").mapM (fun p => do
+      let a ← jArr p
+      pure ((← jInt a[0]!).toNat, (← jInt a[1]!).toNat))
+    let pairs ← (← fl j "pairs").mapM (fun p => do
+      let a ← jArr p
+      pure ((← jInt a[0]!).toNat, (← jInt a[1]!).toNat))
+    let word ← fsl j "word"
+    let s0 : Efp.Store.St :=
+      { content := fun k => (content.find? (·.1 == k)).map (·.2),
+        slotOf := fun n => (content.find? (·.2 == n)).map (·.1) }
+    let slots := content.map (·.1)
+    let dump (s : Efp.Store.St) : Json :=
+      Json.arr (slots.map (fun (k : Nat) => Json.arr #[Json.num (Int.ofNat k), match s.content k with | some n => Json.num (Int.ofNat n) | none => Json.null])).toArray
+    let (_, outs) := word.foldl (fun (acc : (Efp.Store.St × Efp.Store.Sim) × List Json) w =>
+      let st' := Efp.Store.toggle acc.1 (if w == "set" then .set else .reset)
+      (st', acc.2 ++ [dump st'.1])) ((s0, ⟨pairs, false⟩), [])
+    pure (Json.mkObj [("states", Json.arr outs.toArray)])
   | "time" =>
     let fn ← fs j "fn"
     let start ← jInt (← fld j "start")
@@ -383,7 +401,9 @@ def handle (j : Json) : P Json := do
       let ok := Efp.Theory.chainOk (Efp.Graph.slotReads g) calcs (grp.map (fun s => (g[s.toNat]!).sid)) (c.map (·.1))
       Json.mkObj [("chain", Json.arr (c.map (fun p => Json.arr #[Json.num (p.1 : Int), Json.bool p.2])).toArray),
                   ("ok", Json.bool ok)])
-    pure (Json.mkObj [("chains", Json.arr res.toArray), ("groups", Json.arr gres.toArray)])
+    pure (Json.mkObj [("chains", Json.arr res.toArray), ("groups", Json.arr gres.toArray),
+                      ("inv", Json.bool (Efp.Graph.graphInv g)), ("bidirectional", Json.bool (Efp.Graph.bidirectional g)),
+                      ("liveOnly", Json.bool (Efp.Graph.liveOnly g)), ("acyclic", Json.bool (Efp.Graph.acyclic g))])
   | _ => throw s!"unknown cmd {cmd}"
 
 partial def loop (h : IO.FS.Stream) (out : IO.FS.Stream) : IO PUnit := do
